@@ -19,20 +19,30 @@ GUARD = Call(r"may::cancel::CancelDisableGuard::new", transitive=False)
 
 def check(ctx):
     DA = Call(re.escape(SC) + "::Scope::drop_all", transitive=False)
-    ctx.must_follow(SC + "::scope", Call(r"std::ops::FnOnce::call_once", transitive=False), DA, "scope/join-after-body",
-                    "scope() joins all its coroutines (drop_all) after the body returned, outside of any destructor (a re-raised child panic must not skip the remaining joins)")
-    ctx.must_call("<may::scoped::Scope as std::ops::Drop>::drop", DA, "scope/drop-joins", "Drop for Scope joins all remaining coroutines (the unwind path of scope())")
-    f = ctx.fn("R-PAIR", SC + "::scope", "scope/unwind-drops-scope")
+    f = ctx.fn("R-PAIR", SC + "::scope", "scope/join-after-body")
     if f is not None:
-        # the unwind edge of the body call leads to a Drop of the Scope local
-        ok = False; site = None
-        for pt in ctx.an.sites(f, Call(r"std::ops::FnOnce::call_once", transitive=False), "must"):
-            t = f.node(pt); site = pt
-            if isinstance(t.get("uw"), int):
-                r = ctx.an.reach(f, [Point(t["uw"], 0)], unwind=True)
-                ok = any(f.is_term(p) and f.node(p)["t"] == "drop" and "may::scoped::Scope" in f.node(p)["ty"] for p in r)
-        ctx.ob("R-PAIR", SC + "::scope", "scope/unwind-drops-scope", ok, "a panic in the scope body unwinds through the drop of the Scope value (which joins)" if ok else
-               "the unwind path of scope() does not drop the Scope value: a panicking owner leaves while children run", f.where(site))
+        bodies = shared.user_body_sites(ctx, f)
+        das = ctx.an.sites(f, DA, "must")
+        if not bodies:
+            ctx.missing("R-PAIR", SC + "::scope", "scope/join-after-body", "scope() does not run the user's closure (directly or under catch_unwind)")
+        else:
+            r = ctx.an.reach(f, [q for b, _ in bodies for q in ctx.an.after(f, b)], blocked=das)
+            bad = [x for x in f.ret_points() if x in r]
+            ctx.ob("R-PAIR", SC + "::scope", "scope/join-after-body", bool(das) and not bad,
+                   "scope() joins all its coroutines (drop_all) after the body returned, outside of any destructor (a re-raised child panic must not skip the remaining joins)" if das and not bad else
+                   "scope() can return after its body without calling drop_all", f.where(bodies[0][0]))
+            # a panic of the body also ends in the join: the body runs under catch_unwind and drop_all follows on the normal path (F37), or - the old
+            # shape, which rule no-blocking-landing-pad rejects for another reason - the unwind edge of the body call leads to the Drop of the Scope
+            ok = False; site = bodies[0][0]
+            for b, caught in bodies:
+                t = f.node(b)
+                if caught: ok = bool(das) and not bad
+                elif isinstance(t.get("uw"), int):
+                    ru = ctx.an.reach(f, [Point(t["uw"], 0)], unwind=True)
+                    ok = any(f.is_term(p) and f.node(p)["t"] == "drop" and "may::scoped::Scope" in f.node(p)["ty"] for p in ru)
+            ctx.ob("R-PAIR", SC + "::scope", "scope/unwind-drops-scope", ok, "a panic in the scope body still ends in the join of every child (caught, then drop_all; or the drop of the Scope value)" if ok else
+                   "a panic of the scope body leaves scope() without joining: the owner's frame is gone while children run", f.where(site))
+    ctx.must_call("<may::scoped::Scope as std::ops::Drop>::drop", DA, "scope/drop-joins", "Drop for Scope joins all remaining coroutines (the unwind path of scope())")
     D = SC + "::Scope::drop_all"
     ctx.guarded(D, Ev("ret"), variant_of_call(r"(std|core)::option::Option::take", "None"), "scope/drop-all-runs-every-dtor", "drop_all returns only when no deferred join is left",
                 pred_label="edge `dtors.take()` is None")
@@ -144,13 +154,16 @@ def check(ctx):
     CS = "may::cqueue::scope"
     f = ctx.fn("R-PAIR", CS, "cqueue/scope-drops-cqueue")
     if f is not None:
-        calls = ctx.an.sites(f, Call(r"std::ops::FnOnce::call_once", transitive=False), "must")
         okn = oku = False
-        for pt in calls:
+        for pt, caught in shared.user_body_sites(ctx, f):
             t = f.node(pt)
             rn = ctx.an.reach(f, ctx.an.after(f, pt))
-            okn = any(f.is_term(p) and f.node(p)["t"] == "drop" and "may::cqueue::Cqueue" in f.node(p)["ty"] for p in rn)
-            if isinstance(t.get("uw"), int):
+            okn = any(f.is_term(p) and not f.is_cleanup(p.bb) and f.node(p)["t"] == "drop" and "may::cqueue::Cqueue" in f.node(p)["ty"] for p in rn)
+            # every path from the body to the return drops the Cqueue (in normal context)
+            drops = set(p for p in f.points() if f.is_term(p) and not f.is_cleanup(p.bb) and f.node(p)["t"] == "drop" and "may::cqueue::Cqueue" in f.node(p)["ty"])
+            okn = okn and not any(x in ctx.an.reach(f, ctx.an.after(f, pt), blocked=drops) for x in f.ret_points())
+            if caught: oku = okn          # (F36) a panic of the body is caught: the drop happens on the normal path, then the unwinding resumes
+            elif isinstance(t.get("uw"), int):
                 ru = ctx.an.reach(f, [Point(t["uw"], 0)], unwind=True)
                 oku = any(f.is_term(p) and f.node(p)["t"] == "drop" and "may::cqueue::Cqueue" in f.node(p)["ty"] for p in ru)
         ctx.ob("R-PAIR", CS, "cqueue/scope-drops-cqueue", okn and oku, "cqueue::scope drops its Cqueue (cancel + drain) on the normal and on the unwind exit" if okn and oku else
@@ -175,3 +188,4 @@ def check(ctx):
         ctx.ob("R-PAIR", SI, "scope/child-stores-result", ok, "the closure run by a scoped coroutine always stores f()'s value in the shared packet" if ok else
                "the scoped child's closure does not (always) store its result: ScopedJoinHandle::join finds no packet", f.where())
     shared.drops_do_not_block_unmasked(ctx)
+    shared.no_blocking_landing_pad(ctx)
